@@ -1,6 +1,7 @@
 package project
 
 import (
+	"fmt"
 	"io"
 	"os"
 
@@ -15,12 +16,10 @@ import (
 // and headers are emitted, in which order, and whether a requirement name is written bare or
 // quoted), the load-time validation loop, and CleanPath/SplitPathVersion/JoinPathVersion.
 
-type vEmit struct {
-	format string
-	args   []string
-}
-
-var vEmits []vEmit
+// What WriteConfigFile prints is rendered to text (fmt's own formatting rules, through the engine's
+// fmt model; natively the real fmt) and the reader below parses that text the way a TOML parser
+// reads the document skeleton.
+var vDoc string
 
 var vStubTable = map[string]string{
 	"os.Create":        "vCreate",
@@ -30,23 +29,19 @@ var vStubTable = map[string]string{
 	"github.com/pelletier/go-toml/v2.NewEncoder":                 "vNewEncoder",
 	"(*github.com/pelletier/go-toml/v2.Encoder).SetTablesInline": "vSetTablesInline",
 	"(*github.com/pelletier/go-toml/v2.Encoder).Encode":          "vEncode",
-	"github.com/pelletier/go-toml/v2.Unmarshal":            "vUnmarshal",
+	"github.com/pelletier/go-toml/v2.Unmarshal":                  "vUnmarshal",
 }
 
 func vCreate(name string) (*os.File, error) { return &os.File{}, nil }
 func vFileClose(f *os.File) error           { return nil }
 
 func vFprintf(w io.Writer, format string, a ...any) (int, error) {
-	e := vEmit{format: format}
-	for _, x := range a {
-		e.args = append(e.args, x.(string))
-	}
-	vEmits = append(vEmits, e)
+	vDoc += fmt.Sprintf(format, a...)
 	return 0, nil
 }
 
 func vFprintln(w io.Writer, a ...any) (int, error) {
-	vEmits = append(vEmits, vEmit{format: "\n"})
+	vDoc += fmt.Sprint(a...) + "\n"
 	return 1, nil
 }
 
@@ -131,54 +126,124 @@ func vValidBareKey(name string) bool {
 	return true
 }
 
-// vRead reads the emitted document skeleton back the way a TOML parser would.
-func vRead(emits []vEmit) (*Config, bool) {
+// vScanValue scans one value at doc[i:]: an encoder token (\x01 len payload), a list of them
+// (\x03 ...), or a TOML literal / basic string that dawn wrote itself. Returns the text, the index
+// after it, and whether it is well-formed.
+func vScanValue(doc string, i int) (string, int, bool) {
+	if i >= len(doc) {
+		return "", i, false
+	}
+	switch doc[i] {
+	case 1:
+		if i+1 >= len(doc) {
+			return "", i, false
+		}
+		n := int(doc[i+1])
+		if i+2+n > len(doc) {
+			return "", i, false
+		}
+		return doc[i+2 : i+2+n], i + 2 + n, true
+	case '\'', '"':
+		q := doc[i]
+		for j := i + 1; j < len(doc); j++ {
+			c := doc[j]
+			if c == q {
+				return doc[i+1 : j], j + 1, true
+			}
+			if (c < 0x20 && c != '\t') || c == 0x7f || (q == '"' && c == '\\') {
+				return "", i, false
+			}
+		}
+	}
+	return "", i, false
+}
+
+func vHasPrefixAt(doc string, i int, p string) bool { return i+len(p) <= len(doc) && doc[i:i+len(p)] == p }
+
+// vRead reads the written document skeleton back the way a TOML parser would: lines `name = V`,
+// `version = V`, `ignore = [V...]`, blank lines, one `[requirements]` header, then lines
+// `KEY = {path = V, version = V}` where KEY is a quoted string or a bare key ([A-Za-z0-9_-]+).
+func vRead(doc string) (*Config, bool) {
 	c := &Config{}
 	inReqs := false
-	ok := true
-	for _, e := range emits {
-		switch e.format {
-		case "\n":
-		case "name = %v\n":
-			v, good := vValue(e.args[0])
-			ok = ok && !inReqs && good
-			c.Name = v
-		case "version = %v\n":
-			v, good := vValue(e.args[0])
-			ok = ok && !inReqs && good
-			c.Version = v
-		case "ignore = %v\n":
-			ok = ok && !inReqs
-			c.Ignore = vUntokList(e.args[0])
-		case "[requirements]\n":
-			ok = ok && !inReqs // a table may be defined once
-			inReqs = true
-			c.Requirements = map[string]RequirementConfig{}
-		case "%v = {path = %v, version = %v}\n":
-			if !inReqs {
+	seenName, seenVersion, seenIgnore := false, false, false
+	i := 0
+	for i < len(doc) {
+		switch {
+		case doc[i] == '\n':
+			i++
+		case !inReqs && vHasPrefixAt(doc, i, "name = "):
+			v, j, ok := vScanValue(doc, i+7)
+			if !ok || seenName || !vHasPrefixAt(doc, j, "\n") {
 				return c, false
 			}
-			key := e.args[0]
-			if k, good := vValue(key); good {
-				key = k
-			} else if !vValidBareKey(key) {
+			c.Name, seenName, i = v, true, j+1
+		case !inReqs && vHasPrefixAt(doc, i, "version = "):
+			v, j, ok := vScanValue(doc, i+10)
+			if !ok || seenVersion || !vHasPrefixAt(doc, j, "\n") {
+				return c, false
+			}
+			c.Version, seenVersion, i = v, true, j+1
+		case !inReqs && vHasPrefixAt(doc, i, "ignore = \x03"):
+			if seenIgnore {
+				return c, false
+			}
+			j := i + 10
+			for j < len(doc) && doc[j] == 1 {
+				v, k, ok := vScanValue(doc, j)
+				if !ok {
+					return c, false
+				}
+				c.Ignore = append(c.Ignore, v)
+				j = k
+			}
+			if !vHasPrefixAt(doc, j, "\n") {
+				return c, false
+			}
+			seenIgnore, i = true, j+1
+		case vHasPrefixAt(doc, i, "[requirements]\n"):
+			if inReqs {
+				return c, false // a table may be defined once
+			}
+			inReqs = true
+			c.Requirements = map[string]RequirementConfig{}
+			i += 15
+		case inReqs:
+			// KEY
+			key, j, quoted := vScanValue(doc, i)
+			if !quoted {
+				j = i
+				for j < len(doc) && vValidBareKey(doc[j:j+1]) {
+					j++
+				}
+				key = doc[i:j]
+				if key == "" {
+					vReach("invalid-bare-key")
+					return c, false
+				}
+			}
+			if !vHasPrefixAt(doc, j, " = {path = ") {
 				vReach("invalid-bare-key")
-				return c, false // the document does not parse (or parses to something else)
+				return c, false
+			}
+			pv, k, ok1 := vScanValue(doc, j+11)
+			if !ok1 || !vHasPrefixAt(doc, k, ", version = ") {
+				return c, false
+			}
+			vv, k2, ok2 := vScanValue(doc, k+12)
+			if !ok2 || !vHasPrefixAt(doc, k2, "}\n") {
+				return c, false
 			}
 			if _, dup := c.Requirements[key]; dup {
-				return c, false // duplicate key
-			}
-			pv, ok1 := vValue(e.args[1])
-			vv, ok2 := vValue(e.args[2])
-			if !ok1 || !ok2 {
 				return c, false
 			}
 			c.Requirements[key] = RequirementConfig{Path: pv, Version: vv}
+			i = k2 + 2
 		default:
 			return c, false
 		}
 	}
-	return c, ok
+	return c, true
 }
 
 func vSameConfig(a, b *Config) bool {
@@ -194,23 +259,6 @@ func vSameConfig(a, b *Config) bool {
 		w, ok := b.Requirements[k]
 		if !ok || v != w {
 			return false
-		}
-	}
-	return true
-}
-
-func vSameEmits(a, b []vEmit) bool {
-	if len(a) != len(b) {
-		return false
-	}
-	for i := range a {
-		if a[i].format != b[i].format || len(a[i].args) != len(b[i].args) {
-			return false
-		}
-		for j := range a[i].args {
-			if a[i].args[j] != b[i].args[j] {
-				return false
-			}
 		}
 	}
 	return true
@@ -268,9 +316,9 @@ func VHarnessC19RoundTrip() {
 		vNativeRoundTrip(c)
 		return
 	}
-	vEmits = nil
+	vDoc = ""
 	vAssert(WriteConfigFile("dawn.toml", c) == nil, "write-ok")
-	first := vEmits
+	first := vDoc
 	parsed, ok := vRead(first)
 	vAssert(ok, "written-document-parses")
 	if !ok {
@@ -283,9 +331,9 @@ func VHarnessC19RoundTrip() {
 		return
 	}
 	vAssert(vSameConfig(c, loaded), "loaded-config-equals-written")
-	vEmits = nil
+	vDoc = ""
 	vAssert(WriteConfigFile("dawn.toml", loaded) == nil, "rewrite-ok")
-	vAssert(vSameEmits(first, vEmits), "rewriting-gives-identical-document")
+	vAssert(first == vDoc, "rewriting-gives-identical-document")
 	vReach("roundtrip")
 }
 
@@ -314,9 +362,9 @@ func vNativeRoundTrip(c *Config) {
 // VHarnessC19Twin: reachability twin.
 func VHarnessC19Twin() {
 	c := &Config{Name: "x", Requirements: map[string]RequirementConfig{vSym(1, "req"): {Path: "a", Version: "v1.0.0"}}}
-	vEmits = nil
+	vDoc = ""
 	WriteConfigFile("dawn.toml", c)
-	if _, ok := vRead(vEmits); ok {
+	if _, ok := vRead(vDoc); ok {
 		vAssert(false, "twin")
 	}
 }
@@ -421,24 +469,4 @@ func vCanonical(v string, shape int) bool {
 	default:
 		return false // build metadata is dropped by Canonical
 	}
-}
-
-func VHarnessC19Dbg() {
-	c := &Config{Name: "n", Version: "v1.2.3"}
-	c.Requirements = map[string]RequirementConfig{}
-	name := vSym(1, "req")
-	c.Requirements[name] = RequirementConfig{Path: "github.com/a/b", Version: "v2.0.0"}
-	vEmits = nil
-	WriteConfigFile("dawn.toml", c)
-	parsed, ok := vRead(vEmits)
-	vAssert(ok, "parses")
-	vAssert(len(parsed.Requirements) == 1, "one-req")
-	for k, v := range parsed.Requirements {
-		vAssert(k == name, "key")
-		vAssert(v.Path == "github.com/a/b", "path")
-		w, ok := c.Requirements[k]
-		vAssert(ok, "lookup")
-		vAssert(w == v, "eq")
-	}
-	vAssert(vSameConfig(c, parsed), "same-parsed")
 }
